@@ -25,6 +25,6 @@ PROP = {
 
 TEXT = {
     "technique": "property-based testing: reference renderer/parser differential + render/parse round trip, exhaustive 8/16-bit x all bases (32-bit x 5 bases in thorough), exact heap buffers under ASan/UBSan, libFuzzer in thorough",
-    "level": "Generated-input exploration: igris_{i,u}{8..64}toa, igris_ato{i,u}*, the libc itoa/utoa/ltoa/ultoa shims and the debug_print dec/hex/bin renderers are compared with an independent reference rendering (case-insensitive; returned pointer, terminator, exact buffer size checked) and parsed back (value, end pointer at the first character that cannot continue the number, for every terminator byte). Exhaustive for every 8- and 16-bit value in every base 2..36; all 2^32 values in bases {2,8,10,16,36} in the thorough tier; boundary-biased random for 64 bit.  The buffer renderers debug_writehex/writebin (and _reversed) over exact blocks of 0..300 bytes and debug_printbin_uint4 are checked for digit count, alphabet and parse-back of every group. Nothing is established beyond the explored inputs. Separate targets draw values that are sparse digit strings in the base being rendered (round numbers such as 5000100000).",
+    "level": "Generated-input exploration: igris_{i,u}{8..64}toa, igris_ato{i,u}*, the libc itoa/utoa/ltoa/ultoa shims and the debug_print dec/hex/bin renderers are compared with an independent reference rendering (case-insensitive; returned pointer, terminator, exact buffer size checked) and parsed back (value, end pointer at the first character that cannot continue the number, for every terminator byte). Exhaustive for every 8- and 16-bit value in every base 2..36; all 2^32 values in bases {2,8,10,16,36} in the thorough tier; boundary-biased random for 64 bit.  The buffer renderers debug_writehex/writebin (and _reversed) over exact blocks of 0..300 bytes and debug_printbin_uint4 are checked for digit count, alphabet and parse-back of every group. Nothing is established beyond the explored inputs. Separate targets draw values that are sparse digit strings in the base being rendered (round numbers such as 5000100000). The narrow wrappers must give, character for character, the text of the 64-bit entry point; the libc shims must return buf.",
     "note": "Trusted: the harness' repeated-division reference renderer on unsigned __int128; clang ASan/UBSan. Letter case of rendered digits is not constrained (the statement does not fix it). hex/bin debug renderers are judged after stripping their fixed-width leading zeros.",
 }
